@@ -136,8 +136,9 @@ class StepCP:
                     oid = ("cfg", field)
                     heap[(ps, field)] = Obj(oid)
                     heap[(oid, attr)] = Const(val)
-            elif base == "clock_struct":
-                heap[(("param", fi.qualname, "clock_struct"), attr)] = Const(val)
+            elif base in fi.params:
+                # a field of one of the step's parameter objects; val may be an abstract value (Sgn) instead of a constant
+                heap[(("param", fi.qualname, base), attr)] = val if isinstance(val, (Sgn, Obj)) else Const(val)
             else:
                 raise AnalysisError(f"unknown configuration root {base}")
         self.interp = Interp(prog, fi, domains=DOMAINS, interprocedural=True, part_key="vars",
